@@ -52,6 +52,11 @@ struct Sh {
     m_entered: AtomicUsize,
     got_poisoned_m: AtomicUsize,
     got_poisoned_rw: AtomicUsize,
+    /// set inside the critical section right before a holder panics: whoever acquires the
+    /// lock afterwards must be told that it is poisoned
+    panicked_m: AtomicUsize,
+    panicked_rw: AtomicUsize,
+    clean_after_panic: AtomicUsize,
 }
 
 struct Occ<'a>(&'a AtomicUsize, usize);
@@ -73,10 +78,15 @@ fn body(sh: &Sh, states: &States, ai: usize, ops: &[Op]) -> i64 {
             YIELD => may::coroutine::yield_now(),
             SLEEP => may::coroutine::sleep(Duration::from_nanos(op.1 as u64)),
             LOCK | P_IN_M => {
+                let mut clean = true;
                 let mut g = sh.m.lock().unwrap_or_else(|e| {
                     sh.got_poisoned_m.fetch_add(1, Ordering::SeqCst);
+                    clean = false;
                     e.into_inner()
                 });
+                if clean && sh.panicked_m.load(Ordering::SeqCst) > 0 {
+                    sh.clean_after_panic.fetch_add(1, Ordering::SeqCst);
+                }
                 if sh.occ_m.fetch_add(1, Ordering::SeqCst) != 0 {
                     sh.bad.fetch_add(1, Ordering::SeqCst);
                 }
@@ -88,16 +98,22 @@ fn body(sh: &Sh, states: &States, ai: usize, ops: &[Op]) -> i64 {
                     may::coroutine::yield_now();
                 }
                 if op.0 == P_IN_M {
+                    sh.panicked_m.store(1, Ordering::SeqCst);
                     panic!("{}", msg(ai, P_IN_M));
                 }
                 drop(o);
                 drop(g);
             }
             WRITE | P_IN_RW => {
+                let mut clean = true;
                 let mut g = sh.rw.write().unwrap_or_else(|e| {
                     sh.got_poisoned_rw.fetch_add(1, Ordering::SeqCst);
+                    clean = false;
                     e.into_inner()
                 });
+                if clean && sh.panicked_rw.load(Ordering::SeqCst) > 0 {
+                    sh.clean_after_panic.fetch_add(1, Ordering::SeqCst);
+                }
                 if sh.occ_rw.fetch_add(1000, Ordering::SeqCst) != 0 {
                     sh.bad.fetch_add(1, Ordering::SeqCst);
                 }
@@ -107,16 +123,22 @@ fn body(sh: &Sh, states: &States, ai: usize, ops: &[Op]) -> i64 {
                     may::coroutine::yield_now();
                 }
                 if op.0 == P_IN_RW {
+                    sh.panicked_rw.store(1, Ordering::SeqCst);
                     panic!("{}", msg(ai, P_IN_RW));
                 }
                 drop(o);
                 drop(g);
             }
             READ => {
+                let mut clean = true;
                 let g = sh.rw.read().unwrap_or_else(|e| {
                     sh.got_poisoned_rw.fetch_add(1, Ordering::SeqCst);
+                    clean = false;
                     e.into_inner()
                 });
+                if clean && sh.panicked_rw.load(Ordering::SeqCst) > 0 {
+                    sh.clean_after_panic.fetch_add(1, Ordering::SeqCst);
+                }
                 if sh.occ_rw.fetch_add(1, Ordering::SeqCst) >= 1000 {
                     sh.bad.fetch_add(1, Ordering::SeqCst);
                 }
@@ -190,6 +212,9 @@ pub fn run(case: &Case) -> Outcome {
         m_entered: AtomicUsize::new(0),
         got_poisoned_m: AtomicUsize::new(0),
         got_poisoned_rw: AtomicUsize::new(0),
+        panicked_m: AtomicUsize::new(0),
+        panicked_rw: AtomicUsize::new(0),
+        clean_after_panic: AtomicUsize::new(0),
     });
     let desc: Vec<String> = case.actors.iter().map(|a| format!("{}", match a.role {
         0 => "coroutine",
@@ -266,6 +291,9 @@ pub fn run(case: &Case) -> Outcome {
     }
     if let Err(std::sync::TryLockError::WouldBlock) = sh.rw.try_write() {
         out.fail("rwlock-not-released", String::new());
+    }
+    if sh.clean_after_panic.load(Ordering::SeqCst) > 0 {
+        out.fail("lock-acquired-clean-after-its-holder-panicked", format!("{} acquisitions", sh.clean_after_panic.load(Ordering::SeqCst)));
     }
     // poison flags: set iff a panic (not a cancel) dropped a guard
     let pm = sh.m.is_poisoned();
